@@ -252,40 +252,64 @@ impl<S: BuildHasher + Default + Clone + Send + Sync + 'static> ConcurrentSet
         Self: 'x;
 
     fn insert_element(&self, element: Self::Element) -> bool {
-        let read = self.0.read();
-        match &*read {
-            TieredStorage::Small(vec_lock) => {
-                let mut vec = vec_lock.write();
+        {
+            let read = self.0.read();
+            match &*read {
+                TieredStorage::Small(vec_lock) => {
+                    let mut vec = vec_lock.write();
 
-                // Upgrade to large storage if exceed threshold
-                if vec.len() == 32 {
-                    let large_set = DashSet::with_hasher(S::default());
+                    if vec.len() < 32 {
+                        if vec.contains(&element) {
+                            return false;
+                        }
 
-                    for item in vec.drain(..) {
-                        large_set.insert(item);
+                        vec.push(element);
+
+                        return true;
                     }
+                }
 
-                    let result = large_set.insert(element);
+                TieredStorage::Large(set) => return set.insert(element),
+            }
+        }
 
-                    drop(vec);
-                    drop(read);
+        // The small tier is full. Upgrade to the large tier under the
+        // exclusive outer lock, re-checking the tier: between the locks
+        // another thread may have upgraded or removed elements, and nobody may
+        // observe (or write into) the vector while it is being drained.
+        let mut write = self.0.write();
 
-                    *self.0.write() = TieredStorage::Large(large_set);
+        let (large_set, result) = match &mut *write {
+            TieredStorage::Small(vec_lock) => {
+                let vec = vec_lock.get_mut();
 
-                    result
-                } else {
+                if vec.len() < 32 {
                     if vec.contains(&element) {
                         return false;
                     }
 
                     vec.push(element);
 
-                    true
+                    return true;
                 }
+
+                let large_set = DashSet::with_hasher(S::default());
+
+                for item in vec.drain(..) {
+                    large_set.insert(item);
+                }
+
+                let result = large_set.insert(element);
+
+                (large_set, result)
             }
 
-            TieredStorage::Large(set) => set.insert(element),
-        }
+            TieredStorage::Large(set) => return set.insert(element),
+        };
+
+        *write = TieredStorage::Large(large_set);
+
+        result
     }
 
     fn remove_element(&self, element: &Self::Element) -> bool {
